@@ -6,6 +6,15 @@ import os
 ROOT = os.path.dirname(os.path.dirname(os.path.abspath(__file__)))
 
 CHECKS = {
+    'C20': ('model_checking', '§7 C20',
+            'KevoConfig: configurations as records of boundary classes over all fields, Validate both declaratively and as the if-chain in '
+            'source order, and the manifest life-cycle (save = validate, tmp, rename; load; truncate/corrupt/tamper; open with and without '
+            'data; reopen) model-checked exhaustively: ValidIffConstraints, SaveLoadIdentity, InvalidNeverWritten, BadManifestFailsOpen, '
+            'ReopenUsesStored. TLC-generated behaviours (one per candidate configuration within two fields of a valid base; one per damage '
+            'class with EVERY truncation length of the real MANIFEST; random life-cycle walks) are replayed against config.Validate, '
+            'SaveManifest, LoadConfigFromManifest and engine.NewEngineFacade over directories with existing data.',
+            'real values inside a boundary class are sampled (2-3 per class); constraints = those Validate and docs state',
+            'TLC exhaustive MC + exhaustive spec-generated behaviours replayed on config/engine'),
     'C06': ('exploration', '§7 C06',
             'Recorded concurrent histories of the real engine (3-8 clients, put/get/delete with unique values, tiny memtables, background '
             'flush/compaction, seeded schedule perturbation at the hook sites) are validated by TLC against the sequential map KevoLin: a '
